@@ -84,6 +84,15 @@ func (vc *VC) runHints(fr *Frame, st *State, reach string, hints []*Hint, env *E
 			vc.assumeG(reach, g)
 			vc.trusted["assume in "+vc.unit+" ("+where+"): "+h.Src] = true
 		case "unfold":
+			if h.Try {
+				nerr := len(vc.specErrors)
+				g := vc.safeTr(fr, func() string { return e.hintFormula(h.E, true) }, h.Src)
+				if len(vc.specErrors) > nerr {
+					vc.specErrors = vc.specErrors[:nerr]
+					continue
+				}
+				_ = g
+			}
 			g := vc.safeTr(fr, func() string { return e.hintFormula(h.E, true) }, h.Src)
 			body := g
 			if strings.HasPrefix(body, "(forall") {
@@ -319,6 +328,16 @@ func (vc *VC) ghostPoint(fr *Frame, st *State, reach, when, what string, ordinal
 
 // inside the loop body #i is the index of the element being processed plus... we expose #idx = current index
 func (vc *VC) loopHashBody(fr *Frame, li *loopInfo, st *State, env *Env) {
+	for _, k := range []string{"i", "idx", "len", "coll", "it", "ord", "n"} {
+		delete(env.hash, k)
+	}
+	defer func() {
+		for _, k := range []string{"i", "idx", "len", "coll", "it", "ord", "n"} {
+			if v, ok := env.hash[k]; ok {
+				env.hash[fmt.Sprintf("%s%d", k, li.ordinal)] = v
+			}
+		}
+	}()
 	if li.rangeIdx != nil {
 		if c := fr.cells[li.rangeIdx]; c != nil {
 			if t, ok := st.locals[c]; ok {
@@ -770,6 +789,8 @@ func (vc *VC) execCall(fr *Frame, st *State, reach string, instr ssa.Instruction
 	if key == "" {
 		key = vc.P.funcKey(callee)
 	}
+	// a method expression T.M is called through a synthetic thunk with the same parameters (receiver first)
+	key = strings.TrimSuffix(key, "$thunk")
 	n := fr.ordinal[instr]
 	_, viaParam := common.Value.(*ssa.Parameter)
 	if up, ok := common.Value.(*ssa.UnOp); ok {
@@ -1124,7 +1145,7 @@ func (vc *VC) applySpec(fr *Frame, st *State, reach string, spec *FuncSpec, call
 	for _, c := range spec.Ensures {
 		c := c
 		g := vc.safeTr(fr, func() string { return env2.trBool(c.E) }, c.Src)
-		vc.assumeG(reach, g)
+		vc.assumeNamed(reach, g)
 	}
 	fr.callLines = [2]int{ensStart, len(vc.lines)}
 	return res
@@ -1616,6 +1637,10 @@ func (vc *VC) implsOf(iface types.Type, method string) []implSpec {
 				if !types.Implements(rt, it) {
 					continue
 				}
+				// whole-program refinement: only types that some instruction of the repository converts to an interface
+				if !vc.P.madeIface()[typeKey(rt)] {
+					continue
+				}
 				sel := vc.P.prog.MethodSets.MethodSet(rt).Lookup(tp, method)
 				if sel == nil {
 					sel = vc.P.prog.MethodSets.MethodSet(rt).Lookup(nil, method)
@@ -1690,6 +1715,25 @@ func (vc *VC) applyDispatch(fr *Frame, st *State, reach string, impls []implSpec
 		if im.spec.ModAll {
 			anyAll = true
 		}
+		// entry-state abbreviations of the implementation's contract
+		{
+			lenv := &Env{vc: vc, st: pre, old: pre, names: names, hash: map[string]Val{}, paramsFirst: true}
+			for _, l := range im.spec.Lets {
+				l := l
+				func() {
+					defer func() {
+						if r := recover(); r != nil {
+							if se, is := r.(specErr); is {
+								vc.specErrors = append(vc.specErrors, fmt.Sprintf("%s: contract of %s: let %s: %s", fr.key, vc.P.fnKeys[im.fn], l.Name, se.msg))
+								return
+							}
+							panic(r)
+						}
+					}()
+					names[l.Name] = lenv.trVal(l.E)
+				}()
+			}
+		}
 		bs = append(bs, bound{im, g, names})
 	}
 	// closed world: the dynamic type is one of the repository's implementations
@@ -1734,7 +1778,10 @@ func (vc *VC) applyDispatch(fr *Frame, st *State, reach string, impls []implSpec
 			for _, t := range targets {
 				switch {
 				case t.whole:
-					vc.havocHeap(st, t.heap)
+					// the whole heap may change, but only if this implementation is the one called
+					oldH := vc.heap(st, t.heap)
+					newH := vc.havocHeap(st, t.heap)
+					vc.setHeap(st, t.heap, "(ite "+b.guard+" "+newH+" "+oldH+")")
 				case t.addr != nil && t.addr.Kind != aLocal:
 					nv := vc.fresh("m_"+mangle(t.heap), vc.S.sortOf(vc.addrType(t.addr)))
 					// the write only happens if this implementation is the one called
@@ -1766,7 +1813,25 @@ func (vc *VC) applyDispatch(fr *Frame, st *State, reach string, impls []implSpec
 	}
 	for _, g := range sortedKeys(ghostSet) {
 		if gv := vc.P.ghosts[g]; gv != nil && !gv.Const {
-			st.ghosts[g] = vc.fresh("g_"+g, vc.S.tySort(vc.tyOfTypeExprL(gv.Type, true)))
+			oldG := vc.ghost(st, g)
+			newG := vc.fresh("g_"+g, vc.S.tySort(vc.tyOfTypeExprL(gv.Type, true)))
+			st.ghosts[g] = newG
+			// an implementation that does not list the ghost variable leaves it unchanged
+			for _, b := range bs {
+				own := false
+				for _, m := range b.im.spec.Modifies {
+					if c, ok := m.(*Call); ok && c.Fun == "ghost" {
+						for _, a := range c.Args {
+							if id, ok := a.(*Ident); ok && id.Name == g {
+								own = true
+							}
+						}
+					}
+				}
+				if !own {
+					vc.assumeG("(and "+reach+" "+b.guard+")", "(= "+newG+" "+oldG+")")
+				}
+			}
 		}
 	}
 	res := vc.freshResults(st, resT, shortKey(key))
@@ -1788,7 +1853,7 @@ func (vc *VC) applyDispatch(fr *Frame, st *State, reach string, impls []implSpec
 		for _, c := range b.im.spec.Ensures {
 			c := c
 			g := vc.safeTr(fr, func() string { return env2.trBool(c.E) }, c.Src)
-			vc.assumeG("(and "+reach+" "+b.guard+")", g)
+			vc.assumeNamed("(and "+reach+" "+b.guard+")", g)
 		}
 	}
 	return res
@@ -1867,6 +1932,11 @@ func (vc *VC) checkFuncArgs(fr *Frame, spec *FuncSpec, callee *ssa.Function, com
 			for _, s := range vc.P.specs[vc.P.fnKeys[f]] {
 				if s.Refines == want {
 					ok = true
+					// a closure with preconditions of its own is not a refinement a generic caller may rely on
+					if tc := vc.P.typeCons[want]; tc != nil && len(s.Requires) > len(tc.Spec.Requires) {
+						ok = false
+						vc.specErrors = append(vc.specErrors, fmt.Sprintf("%s: %s has preconditions of its own, so the generic contract of %s (argument %s: %s) cannot be used; a contract specialised with 'bind' is needed", fr.key, vc.P.fnKeys[f], key, pn, want))
+					}
 				}
 			}
 			if !ok {
@@ -1879,4 +1949,36 @@ func (vc *VC) checkFuncArgs(fr *Frame, spec *FuncSpec, callee *ssa.Function, com
 		}
 		vc.specErrors = append(vc.specErrors, fmt.Sprintf("%s: the contract of %s requires argument %s to refine %s; the argument is not a function known statically", fr.key, key, pn, want))
 	}
+}
+
+
+// madeIface: the concrete types that occur as the operand of a MakeInterface instruction somewhere in the
+// repository (the only way a value of that dynamic type can come into existence)
+func (P *Prog) madeIface() map[string]bool {
+	if P.madeIfaceSet != nil {
+		return P.madeIfaceSet
+	}
+	P.madeIfaceSet = map[string]bool{}
+	var visit func(fn *ssa.Function)
+	seen := map[*ssa.Function]bool{}
+	visit = func(fn *ssa.Function) {
+		if fn == nil || seen[fn] {
+			return
+		}
+		seen[fn] = true
+		for _, b := range fn.Blocks {
+			for _, in := range b.Instrs {
+				if mi, ok := in.(*ssa.MakeInterface); ok {
+					P.madeIfaceSet[typeKey(mi.X.Type())] = true
+				}
+			}
+		}
+		for _, an := range fn.AnonFuncs {
+			visit(an)
+		}
+	}
+	for _, fn := range P.repoFns {
+		visit(fn)
+	}
+	return P.madeIfaceSet
 }
